@@ -20,6 +20,8 @@
 //   IP texthex port flag p6hex n6hex     InetAddress(ip, port, ipv6)
 //   IPS texthex port flag scope p6hex n6hex   the same, then setScopeId(scope); sin6_scope_id printed as scope=
 //   IPP port lo v6 n6hex    InetAddress(port, loopbackOnly, ipv6)
+//   N6 addrhex              inet_ntop(AF_INET6) of 16 bytes (platform function vs C20_Ip6Model.ntop6)
+//   P6 texthex              inet_pton(AF_INET6) (platform function vs C20_Ip6Model.pton6)
 //   P4 texthex              sockets::fromIpPort(AF_INET) + toIp
 //   TZB hex                 the bytes as a file through detail::readTimeZoneFile: "tzif ok <offs> <trans>" | "tzif fail"
 //   DUMP                    (kind dump) print the table the real reader produced: "dump <offs> <trans> <isdst>"
@@ -371,6 +373,21 @@ int main()
     {
       InetAddress a(static_cast<uint16_t>(atoi(w[1].c_str())), w[2] == "1", w[3] == "1");
       printf("IPP %s # %s\n", showAddr(a).c_str(), platformAddr(a.toIp()).c_str());
+    }
+    else if (k == "N6")
+    {
+      string a = vh::bytesOfSpec(w[1]);
+      char t[64] = "";
+      if (a.size() == 16 && ::inet_ntop(AF_INET6, a.data(), t, sizeof t)) printf("N6 %s\n", t);
+      else printf("N6 error\n");
+    }
+    else if (k == "P6")
+    {
+      string text = vh::bytesOfSpec(w[1]);
+      unsigned char b6[16];
+      bool nul = text.find('\0') != string::npos;
+      if (!nul && ::inet_pton(AF_INET6, text.c_str(), b6) == 1) printf("P6 %s\n", vh::hexOf(string(reinterpret_cast<char*>(b6), 16)).c_str());
+      else printf("P6 none\n");
     }
     else if (k == "P4")
     {
